@@ -343,7 +343,113 @@ def m5_cellbase_maturity(S):
     S.witness(ctx, ob, "reach_immature", pre, T.and_(imm, T.gt(bn_, 0)))
 
 
-OBLIGATIONS = [m1_since_decode, m2_locks, m3_commit_position, m4_verify_loop, m5_cellbase_maturity]
+def m6_resolve_inputs(S):
+    """resolve_transaction (the liveness / double-spend gate shared by block verification and the pool): with two inputs and one
+    header dep, Ok iff (cellbase or: the inputs are distinct, none was spent earlier in the same batch, the provider reports
+    each Live) and the deps resolve and the header dep is valid; on Ok the inputs are recorded as spent, on Err nothing is"""
+    ob = "C04.m6"
+    ctx = S.ctx(unwind=6)
+    ins = [OpaqueV("in0", "OutPoint"), OpaqueV("in1", "OutPoint")]
+    hds = [OpaqueV("hd0", "Byte32")]
+    is_cb = ctx.bool("is_cellbase"); deps_ok = ctx.bool("deps_ok")
+    ctx.uf_decls["cell_status"] = (T.INT, (T.INT,))
+    from mir2smt import smt as _smt
+    _smt.POINTWISE_ONLY.add("cell_status")
+    ctx.uf_decls["header_valid"] = (T.BOOL, (T.INT,))
+    variants = S.prog.enum_variants("CellStatus", "Live", "util/types/src/core/cell.rs")
+    LIVE, DEAD, UNKNOWN = variants.index("Live"), variants.index("Dead"), variants.index("Unknown")
+    statuses = []
+
+    def cell(ex, callee, args, dty):
+        x = E.ident(ex, args[1])
+        st = T.app("cell_status", T.INT, x)
+        ex.ctx.add_side(T.and_(T.le(0, st), T.le(st, 2)))
+        statuses.append(x)
+        return EnumV(st, ((LIVE, (OpaqueV("meta", "CellMeta"),)),), dty)
+
+    def check_valid(ex, callee, args, dty):
+        x = E.ident(ex, args[1])
+        ok = T.app("header_valid", T.BOOL, x)
+        return EnumV(T.ite(ok, 0, 1), ((0, (UNIT,)), (1, (EnumV(S.prog.enum_variants("OutPointError", "Dead", "util/types/src/core/error.rs").index("InvalidHeader"), (), "OutPointError"),))), dty)
+
+    def deps(ex, callee, args, dty):
+        return EnumV(T.ite(deps_ok.t, 0, 1), ((0, (UNIT,)), (1, (OpaqueV("dep_err", "OutPointError"),))), dty)
+
+    def entry(ex, callee, args, dty):
+        # the per-call memo of resolved cells: a miss (the provider is a function of the out point, so a hit returns the same)
+        return EnumV(1, ((1, (OpaqueV("vacant", "VacantEntry"),)),), dty)
+
+    ctx.env = [
+        (E.rx(r"TransactionView::is_cellbase$"), lambda ex, c, a, d: is_cb),
+        (E.rx(r"TransactionView::input_pts_iter$"), E.list_source(ins)),
+        (E.rx(r"TransactionView::header_deps_iter$"), E.list_source(hds)),
+        (E.rx(r"TransactionView::(inputs|cell_deps)$|CellInputVec::len$|CellDepVec::len$"), E.opaque_call()),
+        (E.rx(r"as CellProvider>::cell$"), cell),
+        (E.rx(r"as HeaderChecker>::check_valid$"), check_valid),
+        (E.rx(r"resolve_transaction_deps_with_system_cell_cache"), deps),
+        (E.rx(r"HashMap::<\(.*OutPoint, bool\), CellMeta>::(new|entry)$"), lambda ex, c, a, d: entry(ex, c, a, d) if c.endswith("entry") else OpaqueV("memo", "HashMap")),
+        (E.rx(r"VacantEntry::<.*>::insert$"), E.opaque_call()),
+        (E.rx(r"OutPoint as (ToOwned|Clone)>::(to_owned|clone)$|<CellMeta as Clone>::clone$"), lambda ex, c, a, d: deref(ex, a[0])),
+        (E.rx(r"Vec::<CellMeta>::(with_capacity|new|push)$"), lambda ex, c, a, d: UNIT if c.endswith("push") else OpaqueV("vec", "Vec<CellMeta>")),
+    ] + E.set_env(r"(?:ckb_gen_types::)?(?:packed::)?OutPoint") + E.LIST_ITER
+    seen = ctx.ref_to(E.SetV("seen_before"))
+    ps = S.run(ctx, "resolve_transaction", [OpaqueV("tx", "TransactionView"), seen, ctx.ref_to(OpaqueV("cp", "CP")), ctx.ref_to(OpaqueV("hc", "HC"))], nparams=4)
+    S.prove(ctx, ob, "no_panic", [], T.not_(cond_of(panics(ps))))
+    ok = T.or_(*[T.and_(p.cond(), T.eq(p.value.disc, 0)) for p in returns(ps)])
+    i0, i1 = ctx.int("id!in0", "u64").t, ctx.int("id!in1", "u64").t
+    h0 = ctx.int("id!hd0", "u64").t
+    st = lambda x: T.app("cell_status", T.INT, x)
+    was = lambda x: T.app("seen_before", T.BOOL, x)
+    ctx.uf_decls["seen_before"] = (T.BOOL, (T.INT,))
+    inputs_fine = T.and_(T.ne(i0, i1), T.not_(was(i0)), T.not_(was(i1)), T.eq(st(i0), LIVE), T.eq(st(i1), LIVE))
+    spec = T.and_(T.or_(is_cb.t, inputs_fine), deps_ok.t, T.app("header_valid", T.BOOL, h0))
+    S.prove(ctx, ob, "ok_iff_distinct_unspent_live_inputs_and_deps", [], T.iff(ok, spec))
+    S.witness(ctx, ob, "reach_ok", [ok], T.not_(is_cb.t))
+    S.witness(ctx, ob, "reach_duplicate_input", [T.not_(ok), T.not_(is_cb.t)], T.and_(T.eq(i0, i1), T.eq(st(i0), LIVE), T.not_(was(i0)), deps_ok.t))
+    # error kinds: a repeated or already-spent input is reported Dead
+    errs = S.prog.enum_variants("OutPointError", "Dead", "util/types/src/core/error.rs")
+    e_dead = errs.index("Dead")
+
+    def err_kind(v):
+        p = v.payload(1)
+        e = p[0] if p else None
+        return e.disc if isinstance(e, EnumV) else -1
+    kind = merged(ps, err_kind)
+    S.prove(ctx, ob, "double_spend_is_reported_dead", [T.not_(is_cb.t), T.or_(was(i0), T.and_(T.eq(i0, i1), T.eq(st(i0), LIVE)))], T.and_(T.not_(ok), T.eq(kind, e_dead)))
+    # native counterpart (replay + translator validation): error kinds in the driver's fixed numbering
+    from mir2smt.exec import post_value
+    NUM = {"Dead": 0, "Unknown": 1, "OutOfOrder": 2, "InvalidDepGroup": 3, "InvalidHeader": 4}
+    kind_n = 5
+    for nm_, num in NUM.items():
+        if nm_ in errs:
+            kind_n = T.ite(T.eq(kind, errs.index(nm_)), num, kind_n)
+    rs_ = returns(ps)
+    def distinct_new(xs):
+        # how many elements the real set gains: distinct among themselves and not in the initial contents
+        n_ = 0
+        for k_, x in enumerate(xs):
+            n_ = T.add(n_, T.ite(T.or_(was(x), *[T.eq(x, y) for y in xs[:k_]]), 0, 1))
+        return n_
+    added_n = distinct_new(post_value(ctx, rs_[-1], seen).added)
+    for p in reversed(rs_[:-1]):
+        added_n = T.ite(p.cond(), distinct_new(post_value(ctx, p, seen).added), added_n)
+    S.native(ctx, "resolve_tx", [i0, i1, st(i0), st(i1), T.ite(was(i0), 1, 0), T.ite(was(i1), 1, 0), T.ite(T.app("header_valid", T.BOOL, h0), 1, 0)],
+             [T.ite(ok, 0, 1), T.ite(ok, 99, kind_n), added_n], cond_of(panics(ps)), pre=T.and_(T.not_(is_cb.t), deps_ok.t))
+    VAL.append((S, ctx, [{"id!in0": a, "id!in1": b, "is_cellbase": False, "deps_ok": True, "cell_status": {a: sa, b: sb}, "seen_before": {a: wa, b: wb}, "header_valid": {0: hv}, "id!hd0": 0}
+                         for a in (1, 2) for b in (1, 3) for sa in (0, 1, 2) for sb in (0, 2) for wa in (False, True) for wb in (False, True) for hv in (True, False)
+                         if not (a == b and (sa != sb or wa != wb))]))
+    # post-state of the batch's spent set
+    for k, p in enumerate(returns(ps)):
+        after = post_value(ctx, p, seen)
+        added = tuple(after.added)
+        c = [p.cond()]
+        S.prove(ctx, ob, f"path{k}_spent_set_unchanged_on_error", c + [T.ne(p.value.disc, 0)], bool(added == ()))
+        S.prove(ctx, ob, f"path{k}_spent_set_gains_exactly_the_inputs_on_ok", c + [T.eq(p.value.disc, 0), T.not_(is_cb.t)], bool(added == (i0, i1)))
+        S.prove(ctx, ob, f"path{k}_cellbase_spends_nothing", c + [T.eq(p.value.disc, 0), is_cb.t], bool(added == ()))
+
+
+
+OBLIGATIONS = [m1_since_decode, m2_locks, m3_commit_position, m4_verify_loop, m5_cellbase_maturity, m6_resolve_inputs]
 
 
 def validate(S, native):
